@@ -586,24 +586,32 @@ def gcd_2 (u v : Nat) : Nat :=
 def GCD_DC_THRESHOLD : Nat := 460
 def GCDEXT_DC_THRESHOLD : Nat := 342
 
+/-- the n ≤ 2 endgame of mpn_gcd (gcd.c:245-275): single limbs through mpn_gcd_1; two limbs: make
+    up odd ("at most one can be even"), a zero low limb of vp goes through mpn_gcd_1, otherwise strip
+    the twos of vp and run gcd_2. -/
+def gcdEndgame (a b n : Nat) : Nat :=
+  if n = 1 then gcd_1 [a] b                                      -- gcd.c:247
+  else
+    let a' := if a % 2 = 0 then b else a                          -- MP_PTR_SWAP (up, vp)
+    let b' := if a % 2 = 0 then a else b
+    if b' % B = 0 then gcd_1 [a' % B, a' / B] (b' / B)            -- gcd.c:262
+    else
+      let b'' := if b' % 2 = 0 then b' >>> ctz (b' % B) else b'
+      gcd_2 a' b''
+
+/-- the Lehmer part of mpn_gcd on n-limb operands (gcd.c:197-277) -/
+def gcdLehmer (U V n : Nat) : Nat :=
+  match gcdLehmerLoop (U + V + 1) U V n with
+  | .inr g => g
+  | .inl (a, b, n) => gcdEndgame a b n
+
 /-- mpn_gcd (gp, up, usize, vp, n) at value level (gcd.c:122).  Domain: usize ≥ n > 0, V odd with
     non-zero top limb, U with at least as many bits as V. -/
 def mpn_gcd (U usize V n : Nat) : Nat :=
-  let step (U : Nat) : Nat :=
-    match gcdLehmerLoop (U + V + 1) U V n with
-    | .inr g => g
-    | .inl (a, b, n) =>
-        if n = 1 then gcd_1 [a] b                                   -- gcd.c:247
-        else
-          let (a, b) := if a % 2 = 0 then (b, a) else (a, b)        -- at most one is even
-          if b % B = 0 then gcd_1 [a % B, a / B] (b / B)            -- gcd.c:262
-          else
-            let b := if b % 2 = 0 then b >>> ctz (b % B) else b
-            gcd_2 a b
   if usize > n then
     let U := U % V                                                  -- mpn_tdiv_qr, gcd.c:166
-    if U = 0 then V else step U
-  else step U
+    if U = 0 then V else gcdLehmer U V n
+  else gcdLehmer U V n
 
 /-- the cofactor selected by the gcd hook / the final comparison (gcdext_lehmer.c:47, 243):
     d < 0: the smaller of +u1, -u0;  d = 1: -u0;  d = 0: +u1. -/
